@@ -10,12 +10,14 @@ import (
 	"testing"
 
 	"verif/pbt"
+	"verif/ref/wire"
 )
 
 type truncCase struct {
-	Authorized bool  `json:"authorized"`
-	Prefix     []msg `json:"prefix,omitempty"` // delivered first (e.g. the compact block a blocktxn answers)
-	Final      msg   `json:"final"`            // the message whose payload is cut at every offset
+	Authorized bool   `json:"authorized"`
+	Prefix     []msg  `json:"prefix,omitempty"` // delivered first (e.g. the compact block a blocktxn answers)
+	Final      msg    `json:"final"`            // the message whose payload is cut at every offset
+	Scenario   string `json:"scenario,omitempty"`
 }
 
 func genTruncCase(g *G) truncCase {
@@ -24,6 +26,30 @@ func genTruncCase(g *G) truncCase {
 	wf := func(cmd string) msg {
 		p, dyn := g.wellFormed(cmd)
 		return msg{Cmd: cmd, Pl: hex.EncodeToString(p.b.Bytes()), Kind: "wf", Dyn: dyn}
+	}
+	if (cmd == "blocktxn" || cmd == "block" || cmd == "cmpctblock") && g.chance(50) {
+		// the node has asked this peer for the full block (getdata): the final message names that block
+		tc.Prefix = g.downloadScenario()
+		want := cmd
+		for _, f := range g.follow {
+			if f.Cmd == want && f.Kind == "wf" {
+				tc.Final = f
+			}
+		}
+		if tc.Final.Cmd == "" {
+			h := g.hdrs[0].hdr.Hash()
+			switch cmd {
+			case "blocktxn":
+				tc.Final = msg{Cmd: cmd, Pl: hex.EncodeToString(append(h[:], 0)), Kind: "wf"}
+			case "block":
+				bl := &wire.Block{Header: g.hdrs[0].hdr, Txs: []*wire.Tx{coinbaseTx(g.hdrs[0].height, nil)}}
+				tc.Final = msg{Cmd: cmd, Pl: hex.EncodeToString(bl.Serialize(true)), Kind: "wf"}
+			default:
+				tc.Final = wf(cmd)
+			}
+		}
+		tc.Scenario = "full_block_requested"
+		return tc
 	}
 	switch cmd {
 	case "blocktxn":
@@ -81,6 +107,9 @@ func TestTruncateEverywhere(t *testing.T) {
 		tc := genTruncCase(g)
 		r.Case(tc.asSeq(len(tc.Final.payload())))
 		r.Class(tc.Final.Cmd)
+		if tc.Scenario != "" {
+			r.Class(tc.Scenario + "/" + tc.Final.Cmd)
+		}
 		r.NonTrivial()
 		full := len(tc.Final.payload())
 		if full > 1500 {
